@@ -74,8 +74,8 @@ impl MT210 {
         let mut transactions = Vec::new();
 
         while parser.detect_field("21") || parser.detect_field("32B") {
-            // Parse optional Field 21 - Related Reference
-            let related_reference = parser.parse_optional_field::<Field21NoOption>("21")?;
+            // Parse Field 21 - Related Reference (mandatory in every sequence)
+            let related_reference = Some(parser.parse_field::<Field21NoOption>("21")?);
 
             // Parse mandatory Field 32B - Currency Code, Amount
             let currency_amount = parser.parse_field::<Field32B>("32B")?;
